@@ -96,9 +96,16 @@ def rand_headers(rng, n=None, multi=True):
     return d
 
 
+ODD_URLS = [b'https://example.com/page#', b'https://example.com/caf\xc3\xa9', b'https://example.com/a b.html', b'https://example.com/a|b', b'HTTPS://example.com/',
+            b'https://EXAMPLE.com/x', b'https://example.com', b'https://example.com?q', b'https://example.com/?', b'https://example.com/%7euser', b'https://example.com/a%2fb',
+            b'https://example.com:/x', b'https://example.com/a/../b', b'https://example.com/./', b'https://example.com/"q"', b'https://example.com/[x]', b'https://example.com/a^b`c{d}']
+
+
 def rand_exchange(rng, ver, payload=None):
     uri = rng.choice([b'https://example.com/', b'https://example.com/a/b?q=1', b'https://example.com:443/x', b'https://www.example.com/p%20q',
                       b'https://example.com/' + b'a' * rng.randrange(0, 60)])
+    if rng.random() < 0.2:      # spellings that url.Parse(..).String() does not reproduce byte for byte
+        uri = rng.choice(ODD_URLS)
     method = b'GET'
     rq = rand_headers(rng) if ver != 'b3' else []
     rs = rand_headers(rng)
